@@ -17,7 +17,8 @@ try:
             print('pattern not found in', f); sys.exit(3)
         s = s.replace(old, new, 1)
         open(p, 'w').write(s)
-    r = subprocess.run(['/verif/check'] + ids + ['--repo', tmp], capture_output=True, text=True)
+    env = dict(os.environ, VERIF_EVIDENCE_DIR=os.path.join(tmp, 'evidence'))
+    r = subprocess.run(['/verif/check'] + ids + ['--repo', tmp], capture_output=True, text=True, env=env)
     out = r.stdout + r.stderr
     keep = [l for l in out.splitlines() if not l.startswith('  C')]
     print('\n'.join(keep[:int(os.environ.get('MUT_LINES', '25'))]))
